@@ -811,6 +811,51 @@ class Damage(Component):
         op, cf = parse_case(case)
         return ['mut=' + cf.get('mut', cf.get('kind', '?')).split(':')[0], 'outcome=' + (impl.split()[0] if impl else '?')]
 
+# ------------------------------------------------------------------------------------------------
+# C17 — structural parser vs streaming decoder
+# ------------------------------------------------------------------------------------------------
+class StructCmp(Component):
+    name = 'structcmp'
+    ops = ('structcmp',)
+    profiles = ('release', 'checked')
+    def cases(self, rng, tier, boost):
+        n = self.budget(tier, boost, 900, 40000)
+        out = []
+        for l in driver_gen('valid', rng.randint(1, 10 ** 9), n) + driver_gen('invalid', rng.randint(1, 10 ** 9), n):
+            op, cf = parse_case(l)
+            if op == 'streamread':
+                out.append(f"structcmp si=none bytes={cf['bytes']} class={cf.get('class', 'valid')} nummin={cf.get('nummin', '0')}")
+        return out
+    def oracle(self, case, impl, profile):
+        op, cf = parse_case(case)
+        h, cls, f = parse_outcome(impl)
+        if h == 'panic':
+            return (f'structcmp:{profile}:panic:{cls}', f'structural parser / expansion panicked ({profile}) on class {cf.get("class")}: {cls}')
+        if h != 'ok':
+            return (f'structcmp:harness:{cls}', impl[:200])
+        s_ok = f.get('struct') == 'ok'
+        d_ok = f.get('dec') == 'ok'
+        if s_ok != d_ok:
+            return (f'structcmp:accept-mismatch:{"struct" if s_ok else "decoder"}-accepts:{cf.get("class")}',
+                    f'the structural parser {"accepts" if s_ok else "rejects"} a frame (class {cf.get("class")}) that the streaming decoder {"accepts" if d_ok else "rejects"}: {f.get("struct")} / {f.get("dec")}')
+        if not s_ok:
+            return None
+        if f.get('lens_ok') != 'true':
+            return (f'structcmp:expansion-length:{cf.get("class")}', f'a parsed subframe expands to {f.get("lens")} samples in a block of {f.get("bs")}')
+        if f.get('spcm') != f.get('decpcm'):
+            return (f'structcmp:samples-differ:{cf.get("class")}', 'samples expanded from the parsed structure differ from the streaming decoder\'s')
+        if cf.get('nummin') == '1' and cf.get('class') not in ('nonzero-padding', 'reserved-header-bit'):
+            used = int(f.get('used', '0'))
+            if f.get('rewritten') != cf['bytes'][:2 * used]:
+                return (f'structcmp:rewrite-differs:{cf.get("class")}', 're-serialising the parsed frame does not reproduce the original bytes')
+        return None
+    def nontrivial(self, case, impl):
+        return 'struct=ok' in impl or 'struct=err' in impl
+    def classify(self, case, impl):
+        op, cf = parse_case(case)
+        h, cls, f = parse_outcome(impl)
+        return ['class=' + cf.get('class', '?'), 'struct=' + f.get('struct', '?').split(':')[0], 'dec=' + f.get('dec', '?').split(':')[0]]
+
 PROPS = {}
 NOT_YET = {}
 
@@ -1031,5 +1076,22 @@ PROPS['C05'] = dict(
          'and by the correspondence on every frame. Soundness of everything the decoder accepts (impl_accept_sound) and prefix-determinism of truncations are decided by the exhaustive '
          'flip/truncation runs against the independent L0 decoder, not by a theorem.',
     trusted_base=COMMON_TRUST + ['Spec/Rfc.lean'],
+    assumptions=[],
+)
+
+PROPS['C17'] = dict(
+    module='FlacModel.Props.C17',
+    theorems=['Flac.C17.layouts_agree', 'Flac.C17.readPartitions_length', 'Flac.C17.structLayout_sum', 'Flac.C17.readResidual_length',
+              'Flac.C17.predictGo_length', 'Flac.C17.struct_expand_len'],
+    components=[StructCmp()],
+    rule='900 (quick) / 40000 (thorough) valid frames and as many checksum-consistent malformed frames from the Lean generators, each given to stream::Frame::read_subset (+ write_subset '
+         'and Subframe::decode) and to the streaming decoder; compared: accept/reject, expansion lengths, samples after undoing decorrelation (with the decoder\'s arithmetic width), and '
+         're-serialised bytes when the coded number is minimal and padding/reserved bits are zero; both build profiles; the Lean model of both parsers must predict every field',
+    claim='layouts_agree: for EVERY block size, predictor order and partition order the two parsers slice the residuals identically and refuse the same orders (both layout rules are '
+          'extracted from the source: stream.rs read_partitions, decode.rs read_block); struct_expand_len: every subframe the structural parser accepts expands to exactly block-size '
+          'samples (lengths of warm-up, of every partition kind and of the prediction loop, for all inputs).',
+    note='Byte-identical re-serialisation and whole-frame accept/reject equivalence are decided by the correspondence on generated frames, not by a composed theorem; sample equality holds in '
+         'the model by construction (one expansion function) and is exhibited for the two Rust implementations.',
+    trusted_base=COMMON_TRUST,
     assumptions=[],
 )
